@@ -49,7 +49,15 @@ def step (st : St) (op res : String) : St × List String :=
     match ip4 s, ip4 e, lease.toInt? with
     | some s, some e, some l =>
       -- `setupRange` keeps the lease time rounded to whole seconds (D19)
-      let l := keptLease l
+      -- (Go's `Duration.Round` rounds a negative half away from zero)
+      let l := if l < 0 then -(keptLease (-l)) else keptLease l
+      -- … and refuses one that cannot be announced as an unsigned 32-bit number of seconds (D21)
+      if l < 0 || l > 4294967295 * 1000000000 then
+        ({}, "br:rsetup.lease-out-of-range" :: (if res == "err" then [] else
+          ["DIVERGE dom model=err",
+           s!"FAIL C03 a lease time of {l} ns was accepted at start-up: it cannot be announced in option 51, the lease promised and the expiry stored differ",
+           s!"FAIL C19 a lease time of {l} ns was accepted at start-up: it cannot be honoured on the wire"]))
+      else
       match RState.setup s e l [] some id with
       | .ok m => ({ cfg := some ⟨s, e, l⟩, s := m, bound := [] },
                   "br:rsetup.ok" :: (if res == "ok" then [] else ["DIVERGE dom model=ok"]))
